@@ -5,8 +5,9 @@ import Mixin.Prelude.Proto
 `Encode`/`Decode` are followed statement by statement, including the ten-digits-at-a-time
 optimisation (`bigRadix`, `bigRadix10`), the `'1'` ↔ leading-zero-byte handling and the
 quirk that `Decode` answers the *empty* byte string for every input that contains a byte
-outside the alphabet (Go ranges over the string by rune: a byte ≥ 0x80 becomes a rune that
-is either > 255 or has `b58[v] = 255`, so it is rejected like any other foreign byte).
+outside the alphabet. Go ranges over each ten-*byte* chunk by *rune*; the model decodes
+UTF-8 the same way (`decodeRune`). That a non-ASCII byte always ends in the early return
+(its rune is ≥ 0x80, so it is > 255 or has `b58[v] = 255`) is a theorem, not an assumption.
 
 Strings are byte lists (`Bytes`); big integers are `Nat`. Loops carry an explicit fuel
 argument which is always large enough (proved in `Props/C32.lean`).
@@ -85,7 +86,51 @@ def encode (b : Bytes) : Bytes :=
 /-- `bigRadix[n]` -/
 def bigRadix (n : Nat) : Nat := if n = 0 then 0 else 58 ^ n
 
-/-- inner loop over one chunk: `total = total*58 + b58[v]`, `none` on a foreign byte -/
+/-- `utf8.DecodeRuneInString` for a lead byte `s0 ≥ 0x80` followed by `rest`:
+    (rune, width). Invalid or truncated encodings give `(RuneError, 1)`; over-long forms and
+    surrogates are invalid (the `acceptRanges` of unicode/utf8). Bytes are numbers here. -/
+def decodeRune (s0 : Nat) (rest : List Nat) : Nat × Nat :=
+  let err : Nat × Nat := (0xFFFD, 1)
+  if s0 < 0xC2 ∨ 0xF4 < s0 then err
+  else if s0 < 0xE0 then
+    match rest with
+    | s1 :: _ => if 0x80 ≤ s1 ∧ s1 ≤ 0xBF then ((s0 % 32) * 64 + s1 % 64, 2) else err
+    | _ => err
+  else if s0 < 0xF0 then
+    let lo := if s0 = 0xE0 then 0xA0 else 0x80
+    let hi := if s0 = 0xED then 0x9F else 0xBF
+    match rest with
+    | s1 :: s2 :: _ =>
+      if lo ≤ s1 ∧ s1 ≤ hi ∧ 0x80 ≤ s2 ∧ s2 ≤ 0xBF then
+        ((s0 % 16) * 4096 + (s1 % 64) * 64 + s2 % 64, 3) else err
+    | _ => err
+  else
+    let lo := if s0 = 0xF0 then 0x90 else 0x80
+    let hi := if s0 = 0xF4 then 0x8F else 0xBF
+    match rest with
+    | s1 :: s2 :: s3 :: _ =>
+      if lo ≤ s1 ∧ s1 ≤ hi ∧ 0x80 ≤ s2 ∧ s2 ≤ 0xBF ∧ 0x80 ≤ s3 ∧ s3 ≤ 0xBF then
+        ((s0 % 8) * 262144 + (s1 % 64) * 4096 + (s2 % 64) * 64 + s3 % 64, 4) else err
+    | _ => err
+
+/-- `b58[v]` for a rune `v ≤ 255` -/
+def b58Rune (v : Nat) : Nat := b58 v.toUInt8
+
+/-- inner loop over one chunk `for _, v := range t[:n]`: Go ranges over the *runes* of the
+    byte string: a byte < 0x80 is its own rune, otherwise the UTF-8 decoder runs (invalid →
+    U+FFFD, width 1). `if v > 255 → return ""`, `if b58[v] == 255 → return ""`,
+    `total = total*58 + b58[v]`. `none` = the early return. Fuel ≥ length suffices. -/
+def chunkRunes : Nat → Nat → Bytes → Option Nat
+  | 0, total, _ => some total
+  | _ + 1, total, [] => some total
+  | f + 1, total, c :: r =>
+    let (v, w) := if c.toNat < 0x80 then (c.toNat, 1) else decodeRune c.toNat (r.map UInt8.toNat)
+    if v > 255 then none
+    else if b58Rune v = 255 then none
+    else chunkRunes f (total * 58 + b58Rune v) (r.drop (w - 1))
+
+/-- the same loop when every byte is its own rune (what `chunkRunes` amounts to, see
+    `Mixin.Base58.chunkRunes_eq`): `none` on a byte outside the alphabet -/
 def chunkTotal (total : Nat) : Bytes → Option Nat
   | [] => some total
   | v :: r => if b58 v = 255 then none else chunkTotal (total * 58 + b58 v) r
@@ -98,7 +143,7 @@ def decodeLoop : Nat → Bytes → Nat → Option Nat
     | [] => some answer
     | _ :: _ =>
       let n := min t.length 10
-      match chunkTotal 0 (t.take n) with
+      match chunkRunes n 0 (t.take n) with
       | none => none
       | some total => decodeLoop f (t.drop n) (answer * bigRadix n + total)
 
